@@ -4,6 +4,16 @@ import json, os
 HERE = os.path.dirname(os.path.dirname(os.path.abspath(__file__)))
 ALL = ['C%02d' % i for i in range(1, 21)]
 CLAIMED = {
+  'C10': dict(
+    text='Theorems about a Gallina model of flax.serialization written from the code (to_state_dict/from_state_dict with the dict, FrozenDict, list, tuple, '
+         'namedtuple and struct-dataclass handlers, str(i) index keys, _chunk/_unchunk and their tree drivers, ext packing of arrays/np scalars/complex, and '
+         'msgpack-python\'s encoder): from_state_dict(t, to_state_dict t) = t for every tree; unchunk(chunk th s) = s for every threshold (hence threshold '
+         'independence); restoring is invariant under permutation of the saved entries; missing keys, length and field-name mismatches return the path-naming '
+         'error. Tied to /repo per run: the model is evaluated in Coq on the real state dicts, the exact bytes of to_bytes, restore results and errors.',
+    note='Trusted: Coq kernel, vm_compute, harness, jaxcompat, msgpack-python\'s decoder, numpy buffer semantics. The wire decoder is not modelled (bytes are compared '
+         'one way: Coq encoder = packb output). F2 (big-endian arrays) fixed in /repo. No axioms.',
+    technique='Coq proof (nested induction over pytrees, list/arith lemmas) + per-run byte-exact model-vs-implementation correspondence by vm_compute',
+    ref='DESIGN.md section 5, C10'),
   'C14': dict(
     text='Theorems about hand-written Gallina models of the Linen filter algebra (one fuelled function mirroring union/subtract/intersect_filters, '
          'in_filter, is_filter_empty, group_collections) and of the NNX filter language with the first-match split loop: soundness and totality of the three '
